@@ -174,4 +174,13 @@ example : renderStructLine { (default : Field) with member := .named "a", idx :=
     { (default : ImplContext) with kind := .ownedInto, hasPostInit := true } .tuple 2 none
     = .ok [Tok.ident "obj", dot, Tok.lit "2", eq, Tok.ident "self", dot, Tok.ident "a", semi] := by rfl
 
+/-- the type of a nested struct is written in expression form in front of the struct expression that builds it (fix
+    380ecc1): the generic arguments of the path's own segments get `::`, nested arguments stay in type form, a turbofish
+    that is already there is left alone -/
+example : exprPath [i "R", p '<', i "T", p '>'] = [i "R", j ':', p ':', p '<', i "T", p '>'] := rfl
+example : exprPath [i "m", j ':', p ':', i "Q", p '<', i "Vec", p '<', i "u8", p '>', p '>']
+    = [i "m", j ':', p ':', i "Q", j ':', p ':', p '<', i "Vec", p '<', i "u8", p '>', p '>'] := rfl
+example : exprPath [i "R", j ':', p ':', p '<', i "T", p '>'] = [i "R", j ':', p ':', p '<', i "T", p '>'] := rfl
+example : exprPath [i "P"] = [i "P"] := rfl
+
 end O2o
